@@ -76,4 +76,3 @@ func (s snap) changed(m proto.Message) string {
 	}
 	return ""
 }
-
